@@ -553,6 +553,26 @@ def local_to_arr_slice(L, idx, st):
 
 def store_subscript(interp, o, t, v, st, aug):
     idx = _norm_index(interp, t, st)
+    # write through a basic-slice view of a named array:  A[lo:hi][mask] = v
+    if isinstance(t.value, ast.Subscript) and isinstance(t.value.value, ast.Name) and isinstance(t.value.slice, ast.Slice) and len(idx) == 1 and isinstance(idx[0], Arr):
+        base = interp.eval(t.value.value, st)
+        if isinstance(base, LocalArr) and not base.stores and base.fill is not None: base = local_to_arr(base)
+        B = as_arr(base) if isinstance(base, (Arr, ArrParam)) else None
+        sl = interp.eval(t.value.slice, st)
+        if B is not None and B.ndim == 1 and sl[3] is None and not any(isinstance(z, PV) for z in sl[1:3]):
+            (bv, bc), = B.axes
+            lo = X.const(0) if sl[1] is None else _wrap(to_x(sl[1]), bc)
+            hi = bc if sl[2] is None else _wrap(to_x(sl[2]), bc)
+            M = idx[0]
+            (mv, mc), = M.axes
+            mb = subst_val(M.body, {mv: X.var(bv) - lo})
+            c1 = scal_compare(ast.Lt(), X.var(bv) - lo, X.const(0), "below view")
+            c2 = scal_compare(ast.Lt(), X.var(bv) - hi, X.const(0), "inside view")
+            newv = v if not isinstance(v, (Arr, ArrParam, Masked)) else Opaque("array stored through a masked view")
+            res = pv_apply(lambda a_, b_, m_, old: ((newv if m_ is True else old) if (a_ is False and b_ is True) else old)
+                           if isinstance(a_, bool) and isinstance(b_, bool) and isinstance(m_, bool) else Opaque("view test"), c1, c2, mb, B.body)
+            st.env[t.value.value.id] = Arr(B.axes, res)
+            return
     if isinstance(o, DictVal):
         k = dkey(idx[0] if len(idx) == 1 else tuple(idx))
         if k is not None: o.d[k] = v
@@ -562,6 +582,8 @@ def store_subscript(interp, o, t, v, st, aug):
         h = getattr(o, "hook", None)
         if h: h("setitem", o, idx[0], v, st)
         return
+    if isinstance(o, LocalArr) and not o.stores and o.fill is not None and isinstance(t.value, ast.Name) and len(idx) == 1 and isinstance(idx[0], (Arr,)):
+        o = local_to_arr(o)
     if isinstance(o, LocalArr):
         st.events.append(("store", o.ident, o.name, idx, t))
         if any(is_opaque(i) for i in idx):
@@ -624,6 +646,43 @@ def store_subscript(interp, o, t, v, st, aug):
             V_ = as_arr(v)
             if V_ is not None:
                 st.env[t.value.id] = V_; return
+        if len(idx) == 1 and A.ndim == 1:
+            (av, ac), = A.axes
+            i0 = idx[0]
+            if isinstance(i0, tuple) and i0[0] == "slice":
+                lo, hi, step = i0[1:]
+                stp = to_x(step).as_int() if step is not None else 1
+                if stp in (1, -1) and not any(isinstance(z, PV) for z in (lo, hi)):
+                    if stp == 1:
+                        lo = X.const(0) if lo is None else _wrap(to_x(lo), ac)
+                        hi = ac if hi is None else _wrap(to_x(hi), ac)
+                        tpos = X.var(av) - lo               # element of the right-hand side stored at index av
+                        inside = [(X.var(av) - lo, False), (X.var(av) - hi, True)]     # not(av < lo) and av < hi
+                    else:
+                        lo = (ac - 1) if lo is None else _wrap(to_x(lo), ac)
+                        hi = X.const(-1) if hi is None else _wrap(to_x(hi), ac)
+                        tpos = lo - X.var(av)
+                        inside = [(lo - X.var(av), False), (hi - X.var(av), True)]     # av <= lo and av > hi
+                    V_ = as_arr(v)
+                    if V_ is not None and V_.ndim == 1: newb = subst_val(V_.body, {V_.axes[0][0]: tpos})
+                    elif V_ is None: newb = v
+                    else: newb = Opaque("slice store of a non 1-D value")
+                    body = A.body
+                    c1 = scal_compare(ast.Lt(), inside[0][0], X.const(0), "below slice")
+                    c2 = scal_compare(ast.Lt(), inside[1][0], X.const(0), "inside slice")
+                    def sel(a_, b_, new, old):
+                        ina = (a_ is False) if isinstance(a_, bool) else None
+                        return None
+                    # in-range  <=>  (c1 is False) and (c2 is True)
+                    res = pv_apply(lambda a_, b_, new, old: (new if (a_ is False and b_ is True) else old) if isinstance(a_, bool) and isinstance(b_, bool) else Opaque("slice test"),
+                                   c1, c2, newb, body)
+                    st.env[t.value.id] = Arr(A.axes, res); return
+            xi = to_x(i0) if not isinstance(i0, tuple) else None
+            if xi is not None:
+                xi = _wrap(xi, ac)
+                c = scal_compare(ast.Eq(), X.var(av), xi, "element index")
+                res = pv_apply(lambda c_, new, old: (new if c_ else old) if isinstance(c_, bool) else Opaque("element test"), c, v, A.body)
+                st.env[t.value.id] = Arr(A.axes, res); return
         st.env[t.value.id] = Opaque("unsupported array store")
         return
     if isinstance(o, PV) or is_opaque(o):
